@@ -91,7 +91,12 @@ class PM:
                 if pat.id in env:
                     return env[pat.id] == tgt.id
                 # a variable may not bind to a global/builtin name that the pattern itself could have spelled
-                if tgt.id in env.values():
+                cl = getattr(self, "_comp_locals", None)
+                if cl and pat.id in cl[-1]:
+                    # a comprehension's own variable: a fresh name in a fresh scope (it may repeat a name used outside)
+                    if tgt.id in {env[k] for k in cl[-1] if k in env}:
+                        return False
+                elif tgt.id in env.values():
                     return False
                 env[pat.id] = tgt.id
                 return True
@@ -161,6 +166,27 @@ class PM:
             return pat.arg == tgt.arg
         if isinstance(pat, ast.Call) and len(pat.args) == 1 and not pat.keywords and isinstance(pat.args[0], ast.Constant) and pat.args[0].value is Ellipsis:
             return self._m(pat.func, tgt.func, env)  # f(...) matches any argument list
+        if isinstance(pat, (ast.ListComp, ast.SetComp, ast.GeneratorExp, ast.DictComp)) and not getattr(pat, "_asv_scoped", False):
+            # the loop variables of a comprehension live in its own scope: their bindings end with it (two comprehensions
+            # may use the same name for different things, or different names for the same thing)
+            local = {n.id for g_ in pat.generators for n in ast.walk(g_.target) if isinstance(n, ast.Name) and self._is_var(n.id)}
+            e2 = dict(env)
+            shadowed = {k: e2.pop(k) for k in local if k in e2}
+            pat._asv_scoped = True
+            stack = getattr(self, "_comp_locals", [])
+            self._comp_locals = stack + [local]
+            try:
+                ok = self._m(pat, tgt, e2)
+            finally:
+                pat._asv_scoped = False
+                self._comp_locals = stack
+            if not ok:
+                return False
+            for k in local:
+                e2.pop(k, None)
+            e2.update(shadowed)
+            env.clear(); env.update(e2)
+            return True
         if isinstance(pat, ast.ExceptHandler):
             if (pat.name is None) != (tgt.name is None):
                 return False
